@@ -79,6 +79,33 @@ def run(e: Engine, rep: Report):
     r46(e, rep)
     r47(e, rep)
     r48(e, rep)
+    from . import c03 as _c03
+    rep.rule('R4.9', '= C03-R3.2 (writers): the timetable is written only '
+             'by its enumerated writers, also where the write goes through '
+             'a local alias - the start-up load hands every stored entry to '
+             '_add_queued (an alias held across the yielding load() loop '
+             'fills a list the scheduler has already replaced: the message '
+             'is never retried)')
+    sub = Report(rep.prop, rep.tier, rep.repo)
+    _c03.r32(e, sub)
+    for o in sub.obls:
+        if o.text.startswith('writer of self.queued'):
+            rep.add('R4.9', o.where, o.text, o.status, o.what, o.loc,
+                    o.witness, o.nontrivial, o.reason)
+    rep.errors += sub.errors
+    rep.evaluations += sub.evaluations
+    rep.functions |= sub.functions
+    rep.rule('R4.10', '= C03-R3.4 for the disk backend: the delivered marks '
+             'the store keeps are positions in the list get() removes them '
+             'from (after a restart the outstanding recipients are the ones '
+             'not yet settled, not others)')
+    sub = Report(rep.prop, rep.tier, rep.repo)
+    _c03.r34(e, sub, 'R4.10')
+    for o in sub.obls:
+        if 'diskstorage' in o.where:
+            rep.add('R4.10', o.where, o.text, o.status, o.what, o.loc,
+                    o.witness, o.nontrivial, o.reason)
+    rep.evaluations += sub.evaluations
     rep.floor('R4.1', 6, 'file-system write sites / ordering obligations')
 
 
